@@ -48,6 +48,7 @@ pub fn suites() -> Vec<(&'static str, Suite)> {
         ("grad_px", c15::run_grad_px as Suite),
         ("pat_px", c16::run_pat_px as Suite),
         ("api_fuzz", c01::run_api_fuzz as Suite),
+        ("tiles", c01::run_tiles as Suite),
         ("stroke_geo", c05::run_stroke_geo as Suite),
         ("gather", c16::run_gather as Suite),
         ("stroker_hist", c20::run_stroker_hist as Suite),
